@@ -38,7 +38,14 @@
                       class root with Pedersen and answers 0 when either trie is empty: the
                       persisted state cannot be opened under its root
 
-   Properties: see the end of the module (P1 .. P5 of the G07 brief). *)
+   Not a deviation, modelled as it is: layertree.add compares root and parent root by POINTER, so the
+   "cyclic layer" test never fires; a block that leaves the state root unchanged (empty block) gets a
+   layer registered under the root of its parent, which it shadows (WitnessRootReplaced).
+
+   Properties (end of the module): ReadsRight (P1), StaleIsError (P2), DiskIsOneState /
+   FlushNeverRefused / OpensAfterRestart / RestartServesJournaled / CommitDurable (P3), CapKeepsBranch
+   with ReadsRight after every flatten (P4), ReadsRight over several tries keyed as the code keys them
+   (P5), CleanCoherent. *)
 EXTENDS Trie
 
 CONSTANTS Tries,            \* subset of {"cl", "ct", "s1", "s2"}
@@ -59,7 +66,7 @@ VARIABLES layers,     \* layer id -> layer record (only layers reachable from lm
           eager,      \* WriteBufferSize = 0 (every non-empty flatten flushes) / huge (only forced flushes)
           dnodes,     \* DISK: node key -> node
           pid,        \* DISK: persisted state id
-          journal,    \* DISK: NoJournal or [disk |-> [root, sid, nodes], diffs |-> <<[root, nodes]>>]
+          journal,    \* DISK: NoJournal or [for (ghost), disk |-> [root, sid, nodes], diffs |-> <<[root, nodes]>>]
           dcontent,   \* ghost: the content whose canonical node table the last flush wrote
           tainted,    \* ghost: a deviation of the code as it is has been triggered (as-is model only)
           failed,     \* ghost: an operation returned an error the caller cannot recover from
